@@ -3,8 +3,8 @@
 
   Condvar part: all theorems are about `run (init n) sched` of `Model/Sync/Condvar.lean`: every number `n` of
   threads/coroutines, every finite schedule `sched` (every interleaving of the atomic steps of
-  wait / wait_timeout / notify_one / notify_all / lock / unlock, with a time-out `Env.abort` or a cancellation
-  `Env.cancel` possible at every park; `wait_while` is a loop of `wait`s). The associated mutex is its atomic spec
+  wait / wait_timeout / notify_one / notify_all / lock / unlock; every park may return an error (`Env.abort`), which
+  is the time-out of a timed wait or the cancellation of a coroutine (`Env.cancel`, decided where the code looks at it); `wait_while` is a loop of `wait`s). The associated mutex is its atomic spec
   (C05). The same `step` function is what the driver executes when it replays implementation traces
   (`CondvarReplay.lean`, in lock-step with the C05 Mutex model).
 
@@ -202,9 +202,19 @@ def fwdSched : List (Tid × Env) :=
    (0, .abort), (1, .notifyOne), (1, .go), (1, .go), (1, .go), (1, .go),
    (0, .go), (0, .go)]
 example : (run (init 3) fwdSched).sh.vph 0 = .v4 ∧ (run (init 3) fwdSched).sh.aph 0 = .a5 ∧ (run (init 3) fwdSched).sh.duty 0 = true
-    ∧ (run (init 3) fwdSched).pcs 0 = .n0pop (.wret false) := by decide
-example : (run (init 3) (fwdSched ++ [(0, .go), (0, .go), (0, .go), (0, .go)])).pcs 0 = .wdone true
-    ∧ (run (init 3) (fwdSched ++ [(0, .go), (0, .go), (0, .go), (0, .go)])).sh.tok 1 = true := by decide
+    ∧ (run (init 3) fwdSched).pcs 0 = .n0pop (.wret true) := by decide
+example : (run (init 3) (fwdSched ++ [(0, .go), (0, .go), (0, .go), (0, .go), (0, .go)])).pcs 0 = .wdone true
+    ∧ (run (init 3) (fwdSched ++ [(0, .go), (0, .go), (0, .go), (0, .go), (0, .go)])).sh.tok 1 = true := by decide
+-- the same race with a CANCELLED untimed waiter (a coroutine): it forwards the notification it was picked for, then
+-- releases the mutex and ends with the cancel panic (it cannot "time out": only `Env.cancel` is enabled at `wend false`)
+def cancelSched : List (Tid × Env) :=
+  [(0, .lock), (0, .wait false), (0, .go), (0, .go), (2, .lock), (2, .wait false), (2, .go), (2, .go),
+   (0, .abort), (1, .notifyOne), (1, .go), (1, .go), (1, .go), (1, .go),
+   (0, .go), (0, .go), (0, .go), (0, .go), (0, .go), (0, .go)]
+example : (run (init 3) cancelSched).pcs 0 = .wend false ∧ (run (init 3) cancelSched).sh.duty 0 = true
+    ∧ (run (init 3) cancelSched).sh.tok 1 = true ∧ step (run (init 3) cancelSched) 0 .go = none := by decide
+example : (run (init 3) (cancelSched ++ [(0, .cancel), (0, .go)])).pcs 0 = .idle
+    ∧ (run (init 3) (cancelSched ++ [(0, .cancel), (0, .go)])).sh.locked = false := by decide
 -- the other order: the owner sets `release` before the notifier's swap, the NOTIFIER forwards (n3swap finds release)
 def fwdSched2 : List (Tid × Env) :=
   [(0, .lock), (0, .wait true), (0, .go), (0, .go), (2, .lock), (2, .wait false), (2, .go), (2, .go),
@@ -212,7 +222,7 @@ def fwdSched2 : List (Tid × Env) :=
    (0, .go), (0, .go), (0, .go), (0, .go),                 -- 0: lock, load unparked = false, set release, load unparked = false: returns
    (1, .go), (1, .go)]                                     -- 1: store unparked, swap release = true: forwards
 example : (run (init 3) fwdSched2).sh.duty 0 = true ∧ (run (init 3) fwdSched2).pcs 1 = .n0pop .idle
-    ∧ (run (init 3) fwdSched2).pcs 0 = .wdone true := by decide
+    ∧ (run (init 3) fwdSched2).pcs 0 = .wend true := by decide
 -- notify_all under the mutex with two waiters: at its last pop the queue is empty and both were in the snapshot
 def allSched : List (Tid × Env) :=
   [(0, .lock), (0, .wait false), (0, .go), (0, .go), (1, .lock), (1, .wait false), (1, .go), (1, .go),
